@@ -362,7 +362,16 @@ def gen_spec(ctx, fmt, idx):
         d = MEDIA_DIR[fmt]
         if fmt == "docx" and rng.random() < 0.1:
             d = "media"                                 # a part outside word/
-        part = f"{d}/{sub}image{i + 1}.{Wr.EXT[kind]}"
+        # the extension: usual, in another letter case (str.lower decides), or — OOXML only, where the type is derived
+        # from the name — one the tables do not know
+        ext_ = Wr.EXT[kind]
+        r_ext = rng.random()
+        unknown_ext = False
+        if r_ext < 0.15:
+            ext_ = rng.choice([ext_.upper(), ext_.capitalize()] + (["jpeg", "JPEG"] if kind == "jpeg" else []))
+        elif r_ext < 0.22 and fmt in ("docx", "pptx", "xlsx"):
+            ext_, unknown_ext = "dat", True
+        part = f"{d}/{sub}image{i + 1}.{ext_}"
         data = Wr.MAKERS[kind](min(w, 8), min(h, 8), idx * 7 + i)
         # patch the declared size into the header so that sizes vary without big pixel data
         if kind == "png":
@@ -373,7 +382,8 @@ def gen_spec(ctx, fmt, idx):
             data = data[:18] + w.to_bytes(4, "little") + h.to_bytes(4, "little") + data[26:]
         else:
             data = Wr.jpeg(w, h, idx * 7 + i, app_segments=rng.randint(0, 2))
-        media.append({"part": part, "kind": kind, "w": w, "h": h, "data": data + b"#%d.%d" % (idx, i), "present": True})
+        media.append({"part": part, "kind": kind, "w": w, "h": h, "data": data + b"#%d.%d" % (idx, i), "present": True,
+                      "unknown_ext": unknown_ext})
     # twins: two members whose names differ only in letter case / Unicode normalisation form / a trailing space of
     # the stem; both are referenced exactly and each reference must be served its own bytes
     twins = None
@@ -398,7 +408,8 @@ def gen_spec(ctx, fmt, idx):
             d2 = d2[:6] + w2.to_bytes(2, "little") + h2.to_bytes(2, "little") + d2[10:]
         elif ma["kind"] == "bmp":
             d2 = d2[:18] + w2.to_bytes(4, "little") + h2.to_bytes(4, "little") + d2[26:]
-        media.append({"part": dirn + "/" + tb, "kind": ma["kind"], "w": w2, "h": h2, "data": d2 + b"#twin%d" % idx, "present": True})
+        media.append({"part": dirn + "/" + tb, "kind": ma["kind"], "w": w2, "h": h2, "data": d2 + b"#twin%d" % idx, "present": True,
+                      "unknown_ext": ma.get("unknown_ext", False)})
         twins = (a, len(media) - 1, how)
     nunits = rng.randint(1, 3) if fmt in UNIT_FORMATS else 1
     styles = {"docx": ["rel"] * 5 + ["parent", "abs", "dot", "updown", "missing", "external"],
@@ -454,6 +465,8 @@ def gen_spec(ctx, fmt, idx):
                     pl["anchor"] = rng.choice(["two", "two", "one", "abs"])
                 if fmt == "odt":
                     pl["in_textbox"] = rng.random() < 0.25
+                if fmt in ("odt", "odp", "ods", "odg") and not pl.get("in_textbox"):
+                    pl["group"] = rng.choice([0, 0, 0, 1, 2])          # inside (nested) draw:g shape groups
                 if fmt == "docx":
                     pl["in_table"] = rng.random() < 0.2
             if fmt == "xlsx":
@@ -563,7 +576,8 @@ def check_spec(ctx, spec, doc, units, replay):
             continue
         m = media[mid]
         if o["ctype"] != Wr.CTYPE[m["kind"]]:
-            F(f"{fmt}-content-type:{m['kind']}", f"content type {o['ctype']!r} for a {m['kind']} image")
+            F(f"{fmt}-content-type:" + ("unknown-extension" if m.get("unknown_ext") else m["kind"]),
+              f"content type {o['ctype']!r} for a {m['kind']} image stored as {m['part']!r}")
         if (o["w"], o["h"]) != (m["w"], m["h"]):
             sub = ""
             if fmt == "xlsx":
@@ -661,6 +675,7 @@ def spec_case(spec, doc, units):
 def packages(ctx):
     per = ctx.n(40, 400)
     cases, info = [], []
+    ctcases, ctinfo = [], []
     idx = 0
     for fmt in FMT_ID:
         for _ in range(per):
@@ -684,6 +699,25 @@ def packages(ctx):
                 ctx.finding(f"{fmt}-extraction-raises:{type(e).__name__}", f"{fmt}: extraction of a generated package raised {e!r}", replay)
                 continue
             check_spec(ctx, spec, doc, units, replay)
+            if fmt in ("docx", "pptx", "xlsx"):
+                by_sha_ = {sha(m["data"]): k for k, m in enumerate(spec["media"])}
+                for o in doc:
+                    k_ = by_sha_.get(o["sha"])
+                    if k_ is None:
+                        continue
+                    if fmt == "xlsx":
+                        name_ = spec["media"][k_]["part"]
+                        base_ = name_.rsplit("/", 1)[-1]
+                        raw_ = base_.rsplit(".", 1)[-1] if "." in base_ else ""
+                    else:
+                        tg = [pl["target"] for u in spec["units"] for pl in u if pl["m"] == k_] + \
+                             [t_ for _, t_, m_ in spec.get("extra_rels", []) if m_ == k_]
+                        if not tg:
+                            continue
+                        name_ = tg[0]
+                        raw_ = name_.rsplit(".", 1)[-1]
+                    ctcases.append(f"({coq_Z(FMT_ID[fmt])}, {coq_str(name_)}, ({coq_str(raw_)}, {coq_str(raw_.lower())}), {coq_str(o['ctype'])})")
+                    ctinfo.append((fmt, name_, o["ctype"]))
             cases.append(spec_case(spec, doc, units))
             info.append((fmt, idx, [[(pl["target"], pl["style"]) for pl in u] for u in spec["units"]]))
     ok, failing, log = coq_eval_shards(
@@ -697,6 +731,13 @@ def packages(ctx):
         byf.setdefault(info[i][0], []).append(info[i])
     ctx.obligation("correspondence:pipeline(resolution+numbering) == implementation on generated packages", ok and not failing,
                    (f"{len(failing)} disagreements: " + "; ".join(f"{k}: {len(v)} e.g. {v[0]}" for k, v in byf.items()) + " " + log)[:1800])
+    okc, fc, logc = coq_eval_shards(
+        ctx, "ctype", "From Coq Require Import ZArith List.\nImport ListNotations.\nFrom S2T Require Import Lib.PyStr C14.Model C14.Corr Gen.C14Tables.\n",
+        "(corr_ctype [ctmap_docx; ctmap_pptx; ctmap_xlsx])", ctcases, shard=500, ty="Z * str * (str * str) * str")
+    ctx.traces += len(ctcases)
+    ctx.disagreements += len(fc)
+    ctx.obligation("correspondence:content type by extension (docx/pptx/xlsx) == implementation", okc and not fc,
+                   (f"{len(fc)} disagreements, first: {ctinfo[fc[0]] if fc else ''} " + logc)[:1000])
     ctx.extra["package_cases"] = len(cases)
 
 
@@ -716,7 +757,8 @@ def pdfs(ctx):
             w, h = rng.randint(1, 300), rng.randint(1, 300)
             # how the XObject stores the picture: a single /DCTDecode name, a one-element array, filter chains with
             # Flate / ASCIIHex / ASCII85 / RunLength stages in front of the JPEG, /Filter as an indirect reference;
-            # "flate-raw" = 8-bit gray samples behind /FlateDecode (no embedded file) — LZW, JPX, CCITT, JBIG2 not sampled
+            # "flate-raw" = 8-bit gray samples behind /FlateDecode (no embedded file); LZW stages by the harness encoder;
+            # JPX, CCITT, JBIG2 codecs are not sampled (no encoder; their bytes would pass through like DCT)
             enc = rng.choice(["dct"] * 4 + [e for e in Wr.PDF_ENCODINGS if e != "dct"])
             if enc == "flate-raw":
                 w, h = rng.randint(1, 12), rng.randint(1, 12)
@@ -888,14 +930,16 @@ def run(ctx):
     ctx.assumptions += ["media bytes are opaque values (type parameter) in the numbering/pass-through theorems",
                         "document order of PPTX/ODP shapes = the position order the extractors sort by (the generator lays shapes out top to bottom)"]
     gen_tables(ctx)
-    ctx.prove("C14/Props.v", ["C14/ProofsPath.vo", "C14/ProofsSniff.vo", "C14/ProofsNum.vo"], expected=[
+    ctx.prove("C14/Props.v", ["C14/ProofsPath.vo", "C14/ProofsSniff.vo", "C14/ProofsNum.vo", "C14/ProofsPass.vo"], expected=[
+        "C14_odt_numbers", "C14_odg_numbers", "C14_odt_order_refuted", "C14_odt_order_partial", "C14_odf_placeholders_refuted",
+        "C14_ooxml_content_type", "C14_xlsx_content_type", "C14_content_type_unknown_extension_refuted",
         "C14_resolve_correct", "C14_resolve_relative", "C14_resolve_parent", "C14_resolve_absolute", "C14_resolve_dot_segments",
         "C14_resolve_names_a_part", "C14_sniff_total", "C14_sniff_png", "C14_sniff_gif", "C14_sniff_bmp", "C14_sniff_jpeg",
         "C14_image_numbers", "C14_running_numbers", "C14_restart_numbers_refuted", "C14_ods_numbers_refuted",
         "C14_views_coincide", "C14_unit_content_in_document", "C14_xlsx_views", "C14_docx_unit_images_in_document",
         "C14_odf_href_legacy_refuted", "C14_odf_href_legacy_partial", "C14_odf_href_resolved", "C14_sniff_jpeg_util", "C14_member_lookup_exact", "C14_pdf_codec_is_last_stage"])
     ctx.prove("C14/Inst.v", ["Gen/C14Tables.vo", "C14/Corr.vo"], expected=[
-        "C14_sof_markers_match", "C14_content_types_match", "C14_signatures_match", "C14_anchor_order", "C14_pdf_dct_is_jpeg"])
+        "C14_sof_markers_match", "C14_content_types_match", "C14_signatures_match", "C14_anchor_order", "C14_pdf_dct_is_jpeg", "C14_content_type_by_extension"])
     ctx.prove("C14/InstSites.v", ["Gen/C14Tables.vo"], expected=["C14_resolver_sites", "C14_zip_lookup_exact"])
     corr_resolve(ctx)
     corr_sniff(ctx)
